@@ -216,6 +216,20 @@ func (w *c12World) setup(sc string) (string, *FakeReg, storeState, string) {
 			return fail("setup create del: " + r.Err)
 		}
 	}
+	// other tags of the model the operation is about, sorting before and after the target's tag, each with a layer of
+	// its own: they are not involved in the operation
+	tm := strings.TrimSuffix(strings.TrimPrefix(c12Target(sc), "/"), "/latest")
+	if strings.HasPrefix(sc, "pull") {
+		tm = reg.RegHost + "/" + tm
+	} else {
+		tm = strings.TrimPrefix(tm, "library/")
+	}
+	for _, tag := range []string{"aa", "zz"} {
+		if r := srv.Create(map[string]any{"model": tm + ":" + tag, "from": "keep", "system": "another tag of the same model: " + tag}, nil); !r.OK() {
+			srv.Kill()
+			return fail("setup create sibling tag " + tag + ": " + r.Err)
+		}
+	}
 	srv.Stop()
 	if sc == "pull-resume-parts" {
 		// an earlier pull of the same model had fetched all five parts of the template layer and was interrupted
@@ -614,7 +628,7 @@ func runC12() {
 	rep := kit.NewReport("C12")
 	cfg := rep.Cfg()
 	defer rep.Flush()
-	rep.Set("rule", "case i = PRNG(seed,'C12',i): scenario i mod 10 of {pull new, pull new on top of the complete multi-part resume files (data file + five part files, all marked complete) of an earlier interrupted pull of the same layer (server run with OLLAMA_NOPRUNE throughout, otherwise the first start removes the left-overs), pull update of a tag (shared layer), create from uploaded file, re-create an existing model from another (prunes replaced layers), copy, delete a model that shares layers, delete a model with 24 layers of its own, pull update / re-create of a model of which a copy under another name was made before} on a prepared store that also holds uninvolved models (every manifest of the prior state other than the operation's target must come through byte-identical with intact layers); crash = SIGKILL of the real server at one point: strace-injected before the N-th syscall of a thread in one class of {rename*, unlink*, openat, write/pwrite64, ftruncate, mkdir*, chmod*} (N 1-14, GOMAXPROCS 1 or 4), or by the fake registry on arrival of the r-th manifest/HEAD/blob/CDN request or after b bytes of the r-th CDN body, or by the client after progress line m. Then: store inspected, real restart (start-up repair; 1/4 with OLLAMA_NOPRUNE), inspected again, operation repeated, inspected, restart, tree compared with the control run's. Non-trivial & distinct = distinct (scenario, crash kind, class or request kind, N / byte bucket, syscall+path class actually killed) among runs in which the server really was killed")
+	rep.Set("rule", "case i = PRNG(seed,'C12',i): scenario i mod 10 of {pull new, pull new on top of the complete multi-part resume files (data file + five part files, all marked complete) of an earlier interrupted pull of the same layer (server run with OLLAMA_NOPRUNE throughout, otherwise the first start removes the left-overs), pull update of a tag (shared layer), create from uploaded file, re-create an existing model from another (prunes replaced layers), copy, delete a model that shares layers, delete a model with 24 layers of its own, pull update / re-create of a model of which a copy under another name was made before} on a prepared store that also holds uninvolved models, among them two other tags of the operation's model that sort before and after the target tag and have a layer of their own (every manifest of the prior state other than the operation's target must come through byte-identical with intact layers); crash = SIGKILL of the real server at one point: strace-injected before the N-th syscall of a thread in one class of {rename*, unlink*, openat, write/pwrite64, ftruncate, mkdir*, chmod*} (N 1-14, GOMAXPROCS 1 or 4), or by the fake registry on arrival of the r-th manifest/HEAD/blob/CDN request or after b bytes of the r-th CDN body, or by the client after progress line m. Then: store inspected, real restart (start-up repair; 1/4 with OLLAMA_NOPRUNE), inspected again, operation repeated, inspected, restart, tree compared with the control run's. Non-trivial & distinct = distinct (scenario, crash kind, class or request kind, N / byte bucket, syscall+path class actually killed) among runs in which the server really was killed")
 	rep.Set("assumptions", []string{"crash model = process death (SIGKILL): completed syscalls persist (page cache survives); power loss / missing fsync is outside the statement", "strace's when=N counts per thread, so not every global ordinal is reachable; the points actually hit are listed in coverage.killed_points"})
 	w := &c12World{bin: os.Getenv("VERIF_OLLAMA_BIN"), pool: c04Pool(nil), tmpl: map[string]string{}, control: map[string]storeState{}, regs: map[string]*FakeReg{}, setupErr: map[string]string{}, mutSeq: map[string][]string{}}
 	var err error
